@@ -36,6 +36,7 @@ type frame struct {
 
 type Exec struct {
 	lastObl *Obligation
+	subRefs map[*Term]subRefInfo
 	eng       *Engine
 	vc        *VC
 	bv        bool
